@@ -282,7 +282,7 @@ def _shard_main(prop, shard, nshards, seed, tier, budget, out):
         ctx.partial_path = out + ".partial"
         if shard == 0:
             runner.SELFCHECK["left"] = 5
-        if shard == 0:
+        if shard == 0 and not os.environ.get("VERIF_NO_REGRESSION"):  # switch for sensitivity experiments: search alone
             _regression_replays(ctx, mod, prop)
         mod.run(ctx)
         ctx.stats.extra["mode_selfcheck_cases"] = runner.SELFCHECK["done"]
